@@ -340,7 +340,8 @@ Definition on_backend_datagram (m : mgr) (id : nat) (payload : list N) (now : N)
             (Some (f_inc f), SendToClient (f_client f1) payload)] ++ o)
   end.
 
-(** [handle_timeout] (manager.rs:514): the loop body, then [reschedule] *)
+(** [handle_timeout] (manager.rs:514): the loop body, then forget the armed
+    deadline (the firing spent the shell's one-shot timer) and [reschedule] *)
 Definition timeout_one (now : N) (acc : mgr * list lout) (id : nat) : mgr * list lout :=
   let '(m, outs) := acc in
   match sget (m_flows m) id with
@@ -354,7 +355,7 @@ Definition timeout_one (now : N) (acc : mgr * list lout) (id : nat) : mgr * list
 Definition handle_timeout (m : mgr) (now : N) : mgr * list lout :=
   let due := map fst (filter (fun kf => N.leb (f_deadline (snd kf)) now) (sitems (m_flows m))) in
   let '(m1, o1) := fold_left (timeout_one now) due (m, []) in
-  let '(m2, o2) := reschedule m1 in
+  let '(m2, o2) := reschedule (set_armed m1 None) in
   (m2, o1 ++ o2).
 
 (** [close_all] (manager.rs:221); [abort_flow] = [close_flow] *)
